@@ -196,4 +196,10 @@ def QModuleSer.load (pre : String) (hasBias : Bool) (sd : StateDict) : Option QM
   let o ← leafTensor (sdGet sd (pre ++ "output_scale"))
   pure ⟨w, b, i, o, wq, aq⟩
 
+/-- the state_dict of a whole model: every quantized module writes its entries under its own dotted
+prefix (`nn.Module.state_dict` walks the sub-modules and calls `_save_to_state_dict` with
+`prefix + name + "."`), into one shared dictionary -/
+def modelSave (ms : List (String × QModuleSer)) : StateDict :=
+  (ms.map fun pm => pm.2.save pm.1).flatten
+
 end Quanto
